@@ -3,7 +3,8 @@
 # the property's registered quick check against a scratch worktree with the change applied. Writes /tmp/seed2res/<PROP>-<n>.json
 set -u
 prop="$1"; n="$2"
-src=/tmp/seed2out/$prop/$n
+src=${SEEDBASE:-/tmp/seed2out}/$prop/$n
+pref=${SEEDPREF:-}
 res=/tmp/seed2res; mkdir -p $res
 export GOFLAGS=-mod=mod GOPROXY=off GOSUMDB=off GOTOOLCHAIN=local
 [ -f $src/patch.diff ] || { echo "$prop-$n: no patch"; exit 3; }
@@ -15,20 +16,20 @@ trap 'git -C /repo worktree remove --force $wt >/dev/null 2>&1' EXIT
 cd $wt
 tests=$(grep -oE '^func (Test[A-Za-z0-9_]+)' $demo | awk '{print $2}' | paste -sd'|')
 cp $demo $demodir/zz_seed_demo_test.go
-timeout 600 go test -vet=off -count=1 ./$demodir/ -run "^($tests)\$" > $res/$prop-$n.without.log 2>&1; rc_without=$?
+timeout 600 go test -vet=off -count=1 ./$demodir/ -run "^($tests)\$" > $res/$pref$prop-$n.without.log 2>&1; rc_without=$?
 git apply $src/patch.diff || { echo "$prop-$n APPLY-FAILED"; exit 3; }
-go build ./... > $res/$prop-$n.build.log 2>&1; rc_build=$?
-timeout 600 go test -vet=off -count=1 ./$demodir/ -run "^($tests)\$" > $res/$prop-$n.with.log 2>&1; rc_with=$?
+go build ./... > $res/$pref$prop-$n.build.log 2>&1; rc_build=$?
+timeout 600 go test -vet=off -count=1 ./$demodir/ -run "^($tests)\$" > $res/$pref$prop-$n.with.log 2>&1; rc_with=$?
 rm $demodir/zz_seed_demo_test.go
 pk="./dataset/ ./ddsketch/ ./ddsketch/encoding/ ./ddsketch/mapping/ ./ddsketch/stat/"
 if git diff --name-only | grep -q 'ddsketch/store/\|ddsketch/encoding/'; then pk="$pk ./ddsketch/store/"; fi
-timeout 2400 go test -vet=off -count=1 -timeout 35m $pk > $res/$prop-$n.suite.log 2>&1; rc_suite=$?
-cd /tmp/verif_snap
-VERIF_BUDGET_S=300 timeout 2400 ./check $prop -no-evidence -repo $wt > $res/$prop-$n.check.out 2>&1; rc=$?
-v=$(grep -m1 -A1 '^VIOLATION' $res/$prop-$n.check.out | tail -1 | sed 's/^ *//' | cut -c1-160)
-python3 - "$prop" "$n" "$rc_build" "$rc_without" "$rc_with" "$rc_suite" "$pk" "$rc" "$v" <<'P'
+timeout 2400 go test -vet=off -count=1 -timeout 35m $pk > $res/$pref$prop-$n.suite.log 2>&1; rc_suite=$?
+cd /verif
+VERIF_BUDGET_S=300 timeout 2400 ./check $prop -no-evidence -repo $wt > $res/$pref$prop-$n.check.out 2>&1; rc=$?
+v=$(grep -m1 -A1 '^VIOLATION' $res/$pref$prop-$n.check.out | tail -1 | sed 's/^ *//' | cut -c1-160)
+python3 - "$pref$prop" "$n" "$rc_build" "$rc_without" "$rc_with" "$rc_suite" "$pk" "$rc" "$v" <<'P'
 import sys,json
 prop,n,b,wo,wi,su,pk,rc,v=sys.argv[1:]
-json.dump({'seed':f'{prop}-r2-{n}','build':int(b),'demo_without':int(wo),'demo_with':int(wi),'suite_exit':int(su),'suite_pkgs':pk,'check':{prop:{'exit':int(rc),'first_violation':v}}},open(f'/tmp/seed2res/{prop}-{n}.json','w'),indent=1)
+json.dump({'seed':f'{prop}-r2-{n}','build':int(b),'demo_without':int(wo),'demo_with':int(wi),'suite_exit':int(su),'suite_pkgs':pk,'check':{prop.replace('r3_',''):{'exit':int(rc),'first_violation':v}}},open(f'/tmp/seed2res/{prop}-{n}.json','w'),indent=1)
 P
 echo "$prop-$n build=$rc_build demo_without=$rc_without demo_with=$rc_with suite=$rc_suite check[$prop]=$rc $v"
